@@ -48,7 +48,7 @@ def _first_outcome(probs, num_samples, k):
 class Session:
     """One process lifetime (until completion or crash) of a run or of a resume."""
 
-    def __init__(self, workdir, save_calls=(), crash_after_save_call=None, fs_target=None, rng=None, optimiser=None):
+    def __init__(self, workdir, save_calls=(), crash_after_save_call=None, fs_target=None, rng=None, optimiser=None, np_script=None):
         """
         save_calls            progress()-call indices (0-based, counted in this session) at which the clock jumps past autosave_dt
         crash_after_save_call index of the progress() call right after whose completed autosave the process dies
@@ -61,6 +61,7 @@ class Session:
         self.fs_target = fs_target
         self.rng = rng
         self.optimiser = optimiser
+        self.np_script = np_script
         self.calls = 0
         self.saves = 0
         self.autosave_file = None
@@ -111,6 +112,8 @@ class Session:
                 stack.enter_context(seams.module_random(impl_mod, self.rng))
             if self.optimiser is not None:
                 stack.enter_context(seams.optimiser_answer(self.optimiser))
+            if self.np_script is not None:
+                stack.enter_context(seams.pulser_np_random(**self.np_script))
             stack.enter_context(contextlib.redirect_stdout(io.StringIO()))
             impl_mod.MPSBackendImpl.save_simulation = save_wrapper
             try:
